@@ -410,3 +410,21 @@ def _r4_split(model: Model, run: Run, fi: FuncInfo, roles: Roles) -> None:
             )
     if n_sites == 0:
         run.cannot('%s: no split site found' % fi.qualname)
+
+
+def growth_rule(model: Model, run: Run) -> None:
+    """C09.R3 for UpdateCollection.messages alone (shared with C01.R8): what is added to a buffer is measured, for the room
+    test, by the bytes packed for THIS session"""
+    folder = Folder(model)
+    msgs = model.func(UC + '.messages')
+    run.analysed(msgs)
+    room = None
+    for n in walk_no_nested(msgs.node):
+        if isinstance(n, ast.Assign) and isinstance(n.targets[0], ast.Name):
+            l = linear(n.value, folder, msgs)
+            if l is not None and l[1].get('negotiated.msg_size') == 1:
+                room = n.targets[0].id
+    if room is None:
+        run.cannot('budget assignment (room = negotiated.msg_size - ...) not found in messages()')
+        return
+    _r3_growth(model, run, msgs, room, Roles(model, msgs))
